@@ -40,12 +40,18 @@ CLOCKS = {
 
 class Clock:
     now = dt.datetime(2024, 1, 1)
+    rollover = None     # (k, before, after): the k-th reading of the clock from now on is the first to see `after`
+    readings = 0
 
 
 class VDT(dt.datetime):
     @classmethod
     def utcnow(cls):
         n = Clock.now
+        if Clock.rollover is not None:
+            Clock.readings += 1
+            k, before, after = Clock.rollover
+            n = before if Clock.readings < k else after
         return cls(n.year, n.month, n.day, n.hour, n.minute, n.second, n.microsecond)
 
 
@@ -187,6 +193,64 @@ def fault_case(args):
     return len(fake.requests), vs
 
 
+ROLLOVERS = {
+    'midnight': (dt.datetime(2024, 2, 29, 23, 59, 59, 900000), dt.datetime(2024, 3, 1, 0, 0, 0, 100000)),
+    'new-year': (dt.datetime(2024, 12, 31, 23, 59, 59, 900000), dt.datetime(2025, 1, 1, 0, 0, 0, 100000)),
+}
+
+
+def rollover_case(args):
+    """The date changes between two consecutive readings of the clock: for every operation and every k, the k-th
+    reading is the first one after midnight. A request whose timestamp and credential scope come from different
+    readings carries a signature that does not verify."""
+    op, which, k, creds = args
+    sig0 = {'part': 'clock-rollover', 'op': op, 'boundary': which}
+    detail0 = {'op': op, 'boundary': which, 'k': k, 'rollover': True}
+    out = {}
+    name = 'data/aa/obj-1'
+
+    async def go():
+        c, fake, h = make_client('s3c', 'https', 'minio.test:9000', creds)
+        out['fake'], out['host'] = fake, h
+        data = bytes(range(97))
+        fake.o[name] = data
+        fake.o['data/aa/second'] = b'2'
+        fake.o['data/aa/third'] = b'3'
+        Clock.readings = 0
+        Clock.rollover = (k,) + ROLLOVERS[which]
+        try:
+            if op == 'exists':
+                await c.exists(name)
+            elif op == 'upload':
+                await c.upload(name, data)
+            elif op == 'upload_stream':
+                await c.upload_stream(name, io.BytesIO(data), len(data), 40)
+            elif op == 'download':
+                await c.download(name)
+            elif op == 'download_stream':
+                await c.download_stream(name, io.BytesIO(), 16)
+            elif op == 'list':
+                [x async for x in c.list_files('data/aa/')]
+            elif op == 'delete':
+                await c.delete(name)
+            out['readings'] = Clock.readings
+        finally:
+            Clock.rollover = None
+            await c.close()
+
+    try:
+        W.run(go)
+    except Exception as e:
+        out['exc'] = repr(e)[:200]
+    finally:
+        Clock.rollover = None
+    fake = out.get('fake')
+    if fake is None:
+        return 0, 0, [(dict(sig0, what='harness'), dict(detail0, err=out.get('exc')))]
+    vs = verify_all(fake, creds, out['host'], sig0, detail0)
+    return len(fake.requests), out.get('readings', 0), vs
+
+
 OPS = ('exists', 'upload', 'upload_stream', 'download', 'download_stream', 'list', 'delete')
 OP_FAULTS = ('500', '503', '429', 'connect', 'protocol', 'drop-response', 'redirect-307-same', 'redirect-301-same',
              'redirect-307-other', 'redirect-302-other', 'redirect-308-same')
@@ -266,6 +330,10 @@ def op_fault_case(args):
 
 
 def replay(case):
+    if case.get('rollover'):
+        creds = ('AKIDEXAMPLE', 'wJalrXUtnFEMI/K7MDENG+bPxRfiCYEXAMPLEKEY', 'us-east-1')
+        n, r, vs = rollover_case((case['op'], case['boundary'], case['k'], creds))
+        return {'violations': [v[0] for v in vs][:5]}
     if 'op' in case:
         creds = ('AKIDEXAMPLE', 'wJalrXUtnFEMI/K7MDENG+bPxRfiCYEXAMPLEKEY', 'us-east-1')
         n, vs = op_fault_case((case['op'], case['fault'], case['j'], creds))
@@ -316,6 +384,18 @@ def main():
         for sig, d in vs:
             chk.violation(sig, d)
     fcases = fcases + ocases
+    # the date rolls over between two consecutive clock readings: k up to the largest number of readings seen + 1
+    rcases = [(op, which, k, credsets[0]) for op in OPS for which in ROLLOVERS for k in range(1, 9)]
+    max_readings = 0
+    for n, r, vs in common.pmap(rollover_case, rcases, ordered=False):
+        nreq += n
+        max_readings = max(max_readings, r)
+        for sig, d in vs:
+            chk.violation(sig, d)
+    if max_readings >= 8:
+        chk.harness_error(f'an operation read the clock {max_readings} times: extend the range of k')
+    fcases = fcases + rcases
+    chk.coverage['clock_readings_per_operation_max'] = max_readings
     chk.sample({'op': 'list', 'fault': 'redirect-307-same', 'j': 1})
     chk.sample({'class': 'space', 'name': 'dir/we ird/leaf', 'kind': 's3c', 'scheme': 'https', 'host': 'minio.test:9000', 'clock': 'midnight'})
     chk.sample({'fault': 'reset-mid-body', 'after_request_chunks': 1, 'chunks': 3})
